@@ -148,6 +148,7 @@ def run(ctx):
                 if val != mval and not c02_agree(val, mval):
                     res.mismatches.append({"case": case, "engine": eng, "impl": val, "model": mval})
     matrix_routes(ctx, res)
+    wrapper_routes(ctx, res)
     float_stream(ctx, res)
     return res
 
@@ -247,6 +248,56 @@ def matrix_routes(ctx, res):
                                                    engine="C" if use_c else "python", max_dist=m,
                                                    unbounded=[impl.canon(x) for x in base],
                                                    got=[impl.canon(x) for x in got]))
+
+
+def wrapper_routes(ctx, res):
+    """max_dist alone (no pruning asked for) through the matrix routines and their `_fast` aliases, in configurations in
+    which the Euclidean distance is NOT an upper bound (penalty with unequal lengths): entries below the threshold are
+    the unbounded distances, entries above it inf — nothing may switch pruning on behind the caller's back"""
+    import numpy as np
+    from dtaidistance import dtw, dtw_ndim
+    rng = ctx.rng
+    for it in range(300 if ctx.thorough else 50):
+        n = rng.randint(3, 6)
+        nd = rng.choice([1, 1, 2])
+        series = [dc.rand_series(rng, rng.randint(1, 8), nd) for _ in range(n)]
+        arrs = [impl.to_container(x, "numpy", nd) for x in series]
+        kw = {"penalty": float(rng.choice([1, 2, 3]))}
+        if rng.random() < 0.4:
+            kw["window"] = rng.choice([2, 3])
+        mod = dtw if nd == 1 else dtw_ndim
+        extra = {} if nd == 1 else {"ndim": nd}
+        base = [float(x) for x in mod.distance_matrix(arrs, compact=True, **extra, **kw)]
+        fin = sorted(set(x for x in base if not math.isinf(x)))
+        if not fin:
+            continue
+        v = rng.choice(fin)
+        mi = max(0.5, round(v * v) + rng.choice([-0.5, 0.5, 6.5]))
+        m = math.sqrt(mi)
+        want = [impl.canon(x if x < m else math.inf) for x in base]
+        res.evaluations += 1
+        res.hit("wrapper_routes_penalty_unequal_lengths")
+        res.nontrivial.add(repr(("wrap", series, sorted(kw.items()), m)))
+        routes = {"distance_matrix python": lambda: mod.distance_matrix(arrs, compact=True, max_dist=m, **extra, **kw),
+                  "distance_matrix(use_c)": lambda: mod.distance_matrix(arrs, compact=True, max_dist=m, use_c=True, **extra, **kw),
+                  "distance_matrix_fast": lambda: mod.distance_matrix_fast(arrs, compact=True, max_dist=m, parallel=False,
+                                                                           **extra, **kw),
+                  "distance_matrix_fast(parallel)": lambda: mod.distance_matrix_fast(arrs, compact=True, max_dist=m,
+                                                                                      **extra, **kw)}
+        for name, fn in routes.items():
+            try:
+                got = [impl.canon(float(x)) for x in fn()]
+            except BaseException as e:
+                if isinstance(e, (KeyboardInterrupt, SystemExit)):
+                    raise
+                res.violations.append({"clause": "distance matrix with max_dist raised", "route": name, "series": series,
+                                       "kwargs": repr(kw), "got": impl.exc_name(e) + ":" + str(e)[:100]})
+                continue
+            if got != want and not (len(got) == len(want) and all(c02_agree(a, b) for a, b in zip(got, want))):
+                res.violations.append({"clause": "max_dist inside a distance matrix: entries below the threshold unchanged, "
+                                                 "entries above it inf (no pruning requested)", "route": name,
+                                       "series": series, "ndim": nd, "kwargs": repr(kw), "max_dist": m,
+                                       "unbounded": [impl.canon(x) for x in base], "got": got})
 
 
 def float_stream(ctx, res):
